@@ -156,8 +156,10 @@ void tsl_untrack_uref(struct uref *uref)
 
 static void sink_free(struct tsl_sink *s)
 {
-    for (size_t i = 0; i < s->n; i++)
+    for (size_t i = 0; i < s->n; i++) {
         free(s->recs[i].data);
+        free(s->recs[i].attr_txt);
+    }
     free(s->recs);
     uref_free(s->flow_def);
     upipe_clean(&s->upipe);
@@ -365,6 +367,11 @@ static void sink_input(struct upipe *upipe, struct uref *uref, struct upump **up
             if (ubase_check(udict_get(uref->udict, name, type, &vs, &vp)) && vp)
                 a = vh_hash_bytes(a, vp, vs);
             h += a;     /* order-insensitive */
+            if (vh_opts.verbose) {
+                size_t ol = r->attr_txt ? strlen(r->attr_txt) : 0;
+                r->attr_txt = xrealloc(r->attr_txt, ol + 160);
+                snprintf(r->attr_txt + ol, 160, "%s(t%d)=%s; ", name ? name : "-", (int)type, vp ? tsl_hex(vp, vs, 10) : "");
+            }
         }
     }
     r->attr_hash = h;
